@@ -178,6 +178,14 @@ def handle (args : List String) : String :=
       "ok " ++ showFloatList (G.map fun g => logRe g.rX2Y) ++ " " ++ showFloatList (G.map fun g => logRe g.rY2X) ++ " " ++
         showFloatList (G.map fun g => logRe g.rXY) ++ " " ++ showM2 (G.map (·.S))
     | _, _, _, _ => "bad-op"
+  | ["gcs", nf, p, a, cv] => match nf.toNat?, p.toNat?, parseFloatList? a, parseFloatList? cv with
+    | some nf, some p, some a, some cv =>
+      -- the relabelled model: channels exchanged (`Coefs.swap`, `M2.swap`)
+      let c := (coefsOf p a).swap
+      let G := (gridZ nf).map fun z => grangerAt (transferAt c z) (covOf cv).swap
+      "ok " ++ showFloatList (G.map fun g => logRe g.rX2Y) ++ " " ++ showFloatList (G.map fun g => logRe g.rY2X) ++ " " ++
+        showFloatList (G.map fun g => logRe g.rXY) ++ " " ++ showM2 (G.map (·.S))
+    | _, _, _, _ => "bad-op"
   | "ana" :: np :: nf :: pairs => match np.toNat?, nf.toNat?, pairs.mapM parsePair? with
     | some np, some nf, some ps =>
       let ij := ps.map fun q => (q.i, q.j)
